@@ -30,6 +30,7 @@ import (
 
 	"github.com/henrylee2cn/erpc/v6"
 	"github.com/henrylee2cn/erpc/v6/codec"
+	"github.com/henrylee2cn/erpc/v6/socket"
 	"github.com/henrylee2cn/erpc/v6/utils"
 	"github.com/henrylee2cn/erpc/v6/xfer"
 	"github.com/henrylee2cn/erpc/v6/xfer/gzip"
@@ -397,6 +398,10 @@ func (h *httproto) unpack(m erpc.Message, bb *utils.ByteBuffer) (size int, msg [
 	}
 	if bodySize <= 0 {
 		return size, msg, nil
+	}
+	// refuse a body larger than the read limit before buffering it
+	if uint64(bodySize) > uint64(erpc.GetReadLimit()) {
+		return 0, nil, socket.ErrExceedMessageSizeLimit
 	}
 	bb.ChangeLen(bodySize)
 	_, err = io.ReadFull(h.rw, bb.B)
